@@ -107,6 +107,12 @@ func peach(fm *Frame, opts peachOpt, f Callable, inputs Inputs) error {
 		if workerSema != nil {
 			workerSema.Acquire(ctx, 1)
 		}
+		// A callback may have broken or failed while this input was waiting
+		// for a worker slot; give the slot back instead of starting one more.
+		if workerSema != nil && atomic.LoadInt32(&broken) != 0 {
+			workerSema.Release(1)
+			return
+		}
 		wg.Add(1)
 		go func() {
 			newFm := fm.Fork()
